@@ -321,9 +321,6 @@ Record dview := mk_dview {
   dv_key_d : bool -> string -> list kt; dv_key_a : bool -> string -> list kt;
   dv_reg : bool -> string -> bool }.
 
-Definition side (dr : derives_registry) (rc : bool) : kmap :=
-  if rc then dr_recursive dr else dr_specific dr.
-
 Definition op_key_d (rc : bool) (key : string) (o : op) : list kt :=
   match o with
   | OpDerivesFor k ds r => if Bool.eqb r rc && String.eqb (k_key k) key then ds else []
@@ -566,13 +563,6 @@ Proof.
       (apply set_eq_via_filter; [intros [] D; try discriminate; reflexivity|exact P]).
 Qed.
 
-(** every registered element comes from the arguments of some derive / attribute call *)
-Definition history_args (ops : list op) : list kt :=
-  flat_map (fun o => match o with
-                     | OpDerivesAll l | OpAttrsAll l | OpDerivesFor _ l _ | OpAttrsFor _ l _ => l
-                     | _ => []
-                     end) ops.
-
 Lemma flat_map_sub {A B} (f g : A -> list B) l :
   (forall o x, In x (f o) -> In x (g o)) -> forall x, In x (flat_map f l) -> In x (flat_map g l).
 Proof. intros H x. rewrite !in_flat_map. intros (o & Ho & Hx). exists o; auto. Qed.
@@ -630,3 +620,376 @@ Proof.
       * apply KF; [apply (X3 true key)|apply (Y3 true key)].
       * apply KF; [apply (X4 true key)|apply (Y4 true key)].
 Qed.
+
+(** * 5. settings validation (C11) *)
+Section Validate.
+  Variable r : registry.
+
+  Lemma contains_unknown p : registry_contains_path r p = negb (unknown r p).
+  Proof. unfold unknown, registry_contains_path. rewrite negb_involutive. reflexivity. Qed.
+
+  Lemma contains_iff p :
+    registry_contains_path r p = true <-> exists e, In e r /\ t_path (snd e) = p.
+  Proof.
+    unfold registry_contains_path. rewrite existsb_exists.
+    split; intros (e & He & H); exists e; split; auto; apply path_eqb_eq; auto.
+  Qed.
+
+  (** one projection (derives or attributes) of the validation loop *)
+  Definition stepS (sel : derives -> list kt) (m : list (string * list kt)) (kd : tykey * derives) :=
+    if registry_contains_path r (k_segs (fst kd)) then m
+    else match sel (snd kd) with
+         | [] => m
+         | ds => ve_extend m (k_key (fst kd)) ds
+         end.
+
+  Definition vstep (e : verror) (kd : tykey * derives) : verror :=
+    let '(k, d) := kd in
+    if registry_contains_path r (k_segs k) then e
+    else
+      let e1 := match d_attrs d with
+                | [] => e
+                | ats => mk_verror (ve_derives e) (ve_extend (ve_attrs e) (k_key k) ats) (ve_subs e)
+                end in
+      match d_derives d with
+      | [] => e1
+      | ds => mk_verror (ve_extend (ve_derives e1) (k_key k) ds) (ve_attrs e1) (ve_subs e1)
+      end.
+
+  Lemma vstep_fold l : forall e,
+    fold_left vstep l e =
+    mk_verror (fold_left (stepS d_derives) l (ve_derives e))
+              (fold_left (stepS d_attrs) l (ve_attrs e)) (ve_subs e).
+  Proof.
+    induction l as [|[k d] l IH]; intros e; cbn [fold_left].
+    - destruct e; reflexivity.
+    - rewrite IH. unfold vstep, stepS. cbn [fst snd].
+      destruct (registry_contains_path r (k_segs k)); [reflexivity|].
+      destruct (d_attrs d), (d_derives d); reflexivity.
+  Qed.
+
+  Definition sstep (e : verror) (ps : list string * substitute) : verror :=
+    let '(p, sub) := ps in
+    if registry_contains_path r p then e
+    else mk_verror (ve_derives e) (ve_attrs e) (ve_subs e ++ [(p, print_spath (su_path sub))]).
+
+  Lemma sstep_fold subs : forall e,
+    fold_left sstep subs e =
+    mk_verror (ve_derives e) (ve_attrs e) (ve_subs e ++ spec_unknown_subs r subs).
+  Proof.
+    unfold spec_unknown_subs.
+    induction subs as [|[p sub] subs IH]; intros e; cbn [fold_left filter map].
+    - rewrite app_nil_r. destruct e; reflexivity.
+    - rewrite IH. unfold sstep. rewrite contains_unknown.
+      destruct (unknown r p); cbn [negb map ve_derives ve_attrs ve_subs]; [|reflexivity].
+      rewrite <- app_assoc. reflexivity.
+  Qed.
+
+  Lemma validate_unfold subs dr :
+    validate subs dr r =
+    let l := dr_specific dr ++ dr_recursive dr in
+    mk_verror (fold_left (stepS d_derives) l []) (fold_left (stepS d_attrs) l [])
+              (spec_unknown_subs r subs).
+  Proof.
+    unfold validate. fold vstep. fold sstep. rewrite vstep_fold, sstep_fold. reflexivity.
+  Qed.
+
+  (** *** lookups in the error lists *)
+  Lemma ve_get_extend m K ds K' :
+    ve_get (ve_extend m K ds) K' =
+    if String.eqb K K'
+    then Some (match ve_get m K with Some d' => d' ++ ds | None => ds end)
+    else ve_get m K'.
+  Proof.
+    induction m as [|[k0 d0] m IH]; cbn [ve_extend ve_get].
+    - destruct (String.eqb K K'); reflexivity.
+    - destruct (String.eqb k0 K) eqn:E; cbn [ve_get].
+      + apply String.eqb_eq in E; subst k0.
+        destruct (String.eqb K K'); reflexivity.
+      + rewrite IH. destruct (String.eqb k0 K') eqn:E2; [|reflexivity].
+        apply String.eqb_eq in E2; subst k0. rewrite String.eqb_sym, E. reflexivity.
+  Qed.
+
+  Lemma ve_extend_keys m K ds k :
+    In k (map fst (ve_extend m K ds)) <-> k = K \/ In k (map fst m).
+  Proof.
+    induction m as [|[k0 d0] m IH]; cbn [ve_extend map fst In].
+    - intuition.
+    - destruct (String.eqb k0 K) eqn:E; cbn [map fst In].
+      + apply String.eqb_eq in E; subst. intuition.
+      + rewrite IH. intuition.
+  Qed.
+
+  Lemma ve_extend_NoDup m K ds : NoDup (map fst m) -> NoDup (map fst (ve_extend m K ds)).
+  Proof.
+    induction m as [|[k0 d0] m IH]; cbn [ve_extend map fst]; intros H.
+    - repeat constructor. intros [].
+    - inversion H as [|? ? Hn Hd]; subst.
+      destruct (String.eqb k0 K) eqn:E; cbn [map fst].
+      + constructor; auto.
+      + constructor; [|auto]. rewrite ve_extend_keys. intros [->|Hin]; [|auto].
+        rewrite String.eqb_refl in E; discriminate.
+  Qed.
+
+  Lemma ve_extend_nonempty m K ds : ve_extend m K ds <> [].
+  Proof. destruct m as [|[k0 d0] m]; cbn; [discriminate|]. destruct (String.eqb k0 K); discriminate. Qed.
+
+  Lemma ve_get_In m K ds : NoDup (map fst m) -> (In (K, ds) m <-> ve_get m K = Some ds).
+  Proof.
+    induction m as [|[k0 d0] m IH]; cbn [ve_get In map fst]; intros H.
+    - split; [tauto|discriminate].
+    - inversion H as [|? ? Hn Hd]; subst. destruct (String.eqb k0 K) eqn:E.
+      + apply String.eqb_eq in E; subst k0. split.
+        * intros [E|Hin]; [inversion E; reflexivity|]. exfalso. apply Hn.
+          change K with (fst (K, ds)). apply in_map; exact Hin.
+        * intros E; inversion E; auto.
+      + rewrite <- IH by exact Hd. split; [|auto].
+        intros [E'|Hin]; [|exact Hin]. inversion E'; subst. rewrite String.eqb_refl in E; discriminate.
+  Qed.
+
+  Section Sel.
+    Variable sel : derives -> list kt.
+
+    Lemma stepS_NoDup l : forall m, NoDup (map fst m) -> NoDup (map fst (fold_left (stepS sel) l m)).
+    Proof.
+      induction l as [|[k d] l IH]; intros m H; cbn [fold_left]; [exact H|].
+      apply IH. unfold stepS. cbn [fst snd].
+      destruct (registry_contains_path r (k_segs k)); [exact H|].
+      destruct (sel d); [exact H|]. apply ve_extend_NoDup; exact H.
+    Qed.
+
+    Lemma stepS_get l K : forall m,
+      ve_get (fold_left (stepS sel) l m) K =
+      match ve_get m K with
+      | Some d' => Some (d' ++ spec_unknown_entries sel r l K)
+      | None => if spec_unknown_listed sel r l K then Some (spec_unknown_entries sel r l K) else None
+      end.
+    Proof.
+      unfold spec_unknown_entries, spec_unknown_listed.
+      induction l as [|[k d] l IH]; intros m; cbn [fold_left flat_map existsb].
+      - destruct (ve_get m K); [rewrite app_nil_r|]; reflexivity.
+      - rewrite IH. unfold stepS. cbn [fst snd]. rewrite contains_unknown.
+        destruct (unknown r (k_segs k)); cbn [negb andb].
+        + destruct (sel d) as [|x ds] eqn:S.
+          * cbn [nonempty]. rewrite andb_false_r. cbn [orb].
+            destruct (String.eqb (k_key k) K); cbn [app]; reflexivity.
+          * rewrite ve_get_extend. cbn [nonempty]. rewrite andb_true_r.
+            destruct (String.eqb (k_key k) K) eqn:E; cbn [orb].
+            -- apply String.eqb_eq in E; subst K.
+               destruct (ve_get m (k_key k)); [rewrite <- app_assoc|]; reflexivity.
+            -- destruct (ve_get m K); reflexivity.
+        + cbn [app]. reflexivity.
+    Qed.
+
+    Lemma stepS_nil l : forall m,
+      fold_left (stepS sel) l m = [] <->
+      m = [] /\ forall k d, In (k, d) l -> registry_contains_path r (k_segs k) = true \/ sel d = [].
+    Proof.
+      induction l as [|[k d] l IH]; intros m; cbn [fold_left].
+      - split; [intros ->; split; [reflexivity|intros ? ? []]|tauto].
+      - rewrite IH. unfold stepS. cbn [fst snd].
+        destruct (registry_contains_path r (k_segs k)) eqn:C.
+        + split; intros (Hm & H); split; auto.
+          * intros k' d' [E|Hin]; [inversion E; subst; auto|eauto].
+          * intros k' d' Hin. apply H. right; exact Hin.
+        + destruct (sel d) as [|x ds] eqn:S.
+          * split; intros (Hm & H); split; auto.
+            -- intros k' d' [E|Hin]; [inversion E; subst; auto|eauto].
+            -- intros k' d' Hin. apply H. right; exact Hin.
+          * split.
+            -- intros (Hm & _). exfalso. exact (ve_extend_nonempty _ _ _ Hm).
+            -- intros (_ & H). exfalso.
+               destruct (H k d (or_introl eq_refl)) as [H1|H1]; congruence.
+    Qed.
+  End Sel.
+
+  (** C11_error_exact, functional form *)
+  Theorem validate_exact subs dr :
+    let e := validate subs dr r in
+    let l := dr_specific dr ++ dr_recursive dr in
+    NoDup (map fst (ve_derives e)) /\ NoDup (map fst (ve_attrs e)) /\
+    (forall K, ve_get (ve_derives e) K =
+               if spec_unknown_listed d_derives r l K then Some (spec_unknown_entries d_derives r l K) else None) /\
+    (forall K, ve_get (ve_attrs e) K =
+               if spec_unknown_listed d_attrs r l K then Some (spec_unknown_entries d_attrs r l K) else None) /\
+    ve_subs e = spec_unknown_subs r subs.
+  Proof.
+    cbv zeta. rewrite validate_unfold. cbv zeta. cbn [ve_derives ve_attrs ve_subs].
+    split; [apply stepS_NoDup; constructor|].
+    split; [apply stepS_NoDup; constructor|].
+    split; [intros K; rewrite stepS_get; reflexivity|].
+    split; [intros K; rewrite stepS_get; reflexivity|reflexivity].
+  Qed.
+
+  (** membership form: each unknown path once, with everything registered for it *)
+  Theorem validate_exact_membership subs dr :
+    let e := validate subs dr r in
+    let l := dr_specific dr ++ dr_recursive dr in
+    NoDup (map fst (ve_derives e)) /\ NoDup (map fst (ve_attrs e)) /\
+    (forall K ds, In (K, ds) (ve_derives e) <->
+                  spec_unknown_listed d_derives r l K = true /\ ds = spec_unknown_entries d_derives r l K) /\
+    (forall K ats, In (K, ats) (ve_attrs e) <->
+                   spec_unknown_listed d_attrs r l K = true /\ ats = spec_unknown_entries d_attrs r l K) /\
+    ve_subs e = spec_unknown_subs r subs.
+  Proof.
+    cbv zeta. destruct (validate_exact subs dr) as (N1 & N2 & G1 & G2 & S). cbv zeta in *.
+    split; [exact N1|]. split; [exact N2|]. split; [|split; [|exact S]].
+    - intros K ds. rewrite (ve_get_In _ K ds N1), G1.
+      destruct (spec_unknown_listed d_derives r _ K); split.
+      + intros E; inversion E; auto.
+      + intros (_ & ->); reflexivity.
+      + discriminate.
+      + intros (E & _); discriminate.
+    - intros K ats. rewrite (ve_get_In _ K ats N2), G2.
+      destruct (spec_unknown_listed d_attrs r _ K); split.
+      + intros E; inversion E; auto.
+      + intros (_ & ->); reflexivity.
+      + discriminate.
+      + intros (E & _); discriminate.
+  Qed.
+
+  Lemma nonempty_false {A} (l : list A) : nonempty l = false <-> l = [].
+  Proof. destruct l; cbn; split; congruence. Qed.
+
+  Theorem validate_iff subs dr :
+    verror_is_empty (validate subs dr r) = true <-> settings_known subs dr r.
+  Proof.
+    rewrite validate_unfold. cbv zeta. unfold verror_is_empty, settings_known.
+    cbn [ve_derives ve_attrs ve_subs].
+    set (l := dr_specific dr ++ dr_recursive dr).
+    pose proof (stepS_nil d_derives l []) as HD. pose proof (stepS_nil d_attrs l []) as HA.
+    assert (HS : spec_unknown_subs r subs = [] <->
+                 forall p sub, In (p, sub) subs -> registry_contains_path r p = true).
+    { unfold spec_unknown_subs. induction subs as [|[p0 s0] subs IH]; cbn [filter map].
+      - split; [intros _ ? ? []|reflexivity].
+      - destruct (unknown r p0) eqn:U; cbn [map].
+        + split; [discriminate|]. intros H. specialize (H p0 s0 (or_introl eq_refl)).
+          rewrite contains_unknown, U in H. discriminate.
+        + rewrite IH. split.
+          * intros H p sub [E|Hin]; [inversion E; subst; rewrite contains_unknown, U; reflexivity|eauto].
+          * intros H p sub Hin. apply (H p sub). right; exact Hin. }
+    split.
+    - intros H.
+      destruct (fold_left (stepS d_derives) l []) eqn:ED; [|discriminate].
+      destruct (fold_left (stepS d_attrs) l []) eqn:EA; [|discriminate].
+      destruct (spec_unknown_subs r subs) eqn:ES; [|discriminate].
+      destruct (proj1 HD eq_refl) as (_ & KD). destruct (proj1 HA eq_refl) as (_ & KA).
+      split.
+      + intros k d Hin Hne. apply contains_iff.
+        destruct (KD k d Hin) as [C|Ed]; [exact C|]. destruct (KA k d Hin) as [C|Ea]; [exact C|].
+        rewrite Ed, Ea in Hne. discriminate.
+      + intros p sub Hin. apply contains_iff. apply (proj1 HS eq_refl p sub Hin).
+    - intros (K1 & K2).
+      assert (ED : fold_left (stepS d_derives) l [] = []).
+      { apply HD. split; [reflexivity|]. intros k d Hin.
+        destruct (d_derives d) eqn:E; [right; reflexivity|left].
+        apply contains_iff. apply (K1 k d Hin). rewrite E. reflexivity. }
+      assert (EA : fold_left (stepS d_attrs) l [] = []).
+      { apply HA. split; [reflexivity|]. intros k d Hin.
+        destruct (d_attrs d) eqn:E; [right; reflexivity|left].
+        apply contains_iff. apply (K1 k d Hin). rewrite E. apply orb_true_r. }
+      assert (ES : spec_unknown_subs r subs = []).
+      { apply HS. intros p sub Hin. apply contains_iff. eauto. }
+      rewrite ED, EA, ES. reflexivity.
+  Qed.
+
+  (** the similar-path query *)
+  Theorem similar_spec q : similar_type_paths r q = spec_similar r q.
+  Proof.
+    unfold similar_type_paths, spec_similar, path_ident.
+    destruct q as [|q0 q]; [reflexivity|].
+    induction r as [|[id t] r' IH]; cbn [flat_map map filter]; [reflexivity|].
+    cbn [snd]. destruct (t_path t) as [|p0 p] eqn:E.
+    - exact IH.
+    - destruct (String.eqb (last (p0 :: p) "") (last (q0 :: q) "")); cbn [app]; rewrite IH; reflexivity.
+  Qed.
+End Validate.
+
+(** * 6. the hypotheses / case distinctions of the theorems are inhabited *)
+Module BuildersExamples.
+  Definition ty_A : garg := GType (GTPath false false [("A", ANone)]).
+  Definition src_ok : spath := mk_spath false [("a", ANone); ("Foo", AAngle [ty_A])].
+  Definition src_plain : spath := mk_spath false [("a", ANone); ("Foo", ANone)].
+  Definition src_paren : spath := mk_spath false [("a", ANone); ("Foo", AParen ["("; "A"; ")"])].
+  Definition src_lifetime : spath := mk_spath false [("a", ANone); ("Foo", AAngle [GOther ["'"; "a"]])].
+  Definition src_empty : spath := mk_spath false [].
+  Definition tgt_ok : spath := mk_spath true [("x", ANone); ("Y", AAngle [ty_A])].
+  Definition tgt_crate : spath := mk_spath false [("crate", ANone); ("Y", ANone)].
+  Definition tgt_rel : spath := mk_spath false [("ext", ANone); ("Foo", ANone)].
+  Definition tgt_paren : spath := mk_spath true [("x", ANone); ("Y", AParen ["("; "A"; ")"])].
+  Definition tgt_tuple : spath := mk_spath true [("x", ANone); ("Y", AAngle [GType (GTOther ["("; "A"; ","; "B"; ")"])])].
+
+  Example ex_accept : classify src_ok tgt_ok = None /\ classify src_plain tgt_crate = None.
+  Proof. split; reflexivity. Qed.
+  Example ex_relative : classify src_ok tgt_rel = Some SExpectedAbsolutePath.
+  Proof. reflexivity. Qed.
+  Example ex_empty : classify src_empty tgt_ok = Some SEmptySubstitutePath.
+  Proof. reflexivity. Qed.
+  Example ex_src_paren : classify src_paren tgt_ok = Some SExpectedAngleBracketGenerics.
+  Proof. reflexivity. Qed.
+  Example ex_from : classify src_lifetime tgt_ok = Some SInvalidFromType.
+  Proof. reflexivity. Qed.
+  Example ex_tgt_paren : classify src_ok tgt_paren = Some SExpectedAngleBracketGenerics.
+  Proof. reflexivity. Qed.
+  Example ex_to : classify src_ok tgt_tuple = Some SInvalidToType.
+  Proof. reflexivity. Qed.
+
+  (** keys with and without generics address the same rule; insert-if-absent does not overwrite;
+      a rejected element of [extend] keeps the earlier ones *)
+  Definition hist : list op :=
+    [ OpSubInsertIfAbsent src_plain tgt_crate; OpSubInsertIfAbsent src_ok tgt_ok;
+      OpSubExtend [(src_ok, tgt_ok); (src_paren, tgt_ok); (src_plain, tgt_crate)] ].
+  Example ex_rule : spec_rule hist ["a"; "Foo"] = Some (spec_value src_ok tgt_ok)
+                    /\ spec_rule [OpSubInsertIfAbsent src_plain tgt_crate; OpSubInsertIfAbsent src_ok tgt_ok] ["a"; "Foo"]
+                       = Some (spec_value src_plain tgt_crate).
+  Proof. split; reflexivity. Qed.
+
+  (** the hypotheses of [order_irrelevant_emission] hold for a real pair of distinct histories *)
+  Definition kfoo : tykey := mk_tykey "a :: Foo" ["a"; "Foo"] ["a"; ":"; ":"; "Foo"].
+  Definition h1 : list op :=
+    [ OpDerivesAll [("Clone", ["Clone"])]; OpSubInsert src_ok tgt_ok;
+      OpDerivesFor kfoo [("Debug", ["Debug"]); ("Clone", ["Clone"])] true ].
+  Definition h2 : list op :=
+    [ OpDerivesFor kfoo [("Debug", ["Debug"]); ("Clone", ["Clone"])] true; OpSubInsert src_ok tgt_ok;
+      OpDerivesAll [("Clone", ["Clone"])] ].
+  Example ex_perm_hyps :
+    h1 <> h2 /\ key_functional (history_args h1) /\
+    Permutation (filter is_derive_op h1) (filter is_derive_op h2).
+  Proof.
+    split; [discriminate|]. split.
+    - intros x y Hx Hy E. cbn in Hx, Hy.
+      destruct Hx as [<-|[<-|[<-|[]]]]; destruct Hy as [<-|[<-|[<-|[]]]]; try reflexivity; discriminate.
+    - cbn. apply perm_swap.
+  Qed.
+
+  (** validation: a registry on which the same settings are once known, once not *)
+  Definition unit_ty (p : list string) : ty := mk_ty p [] (TDComposite []) [].
+  Definition reg1 : registry := [(0%N, unit_ty ["a"; "Foo"])].
+  Definition dr_known : derives_registry :=
+    mk_dreg derives_empty [(kfoo, mk_derives [("Clone", ["Clone"])] [])] [].
+  Definition kbar : tykey := mk_tykey "a :: Bar" ["a"; "Bar"] ["a"; ":"; ":"; "Bar"].
+  Definition dr_unknown : derives_registry :=
+    mk_dreg derives_empty [(kbar, mk_derives [("Clone", ["Clone"])] [])]
+            [(kbar, mk_derives [("Debug", ["Debug"])] []); (kfoo, mk_derives [] [])].
+  Example ex_known : settings_known [] dr_known reg1.
+  Proof.
+    split.
+    - intros k d [E|[]] _. inversion E; subst. exists (0%N, unit_ty ["a"; "Foo"]). split; [left|]; reflexivity.
+    - intros p sub [].
+  Qed.
+  Example ex_unknown_merged :
+    ve_derives (validate [] dr_unknown reg1) = [("a :: Bar", [("Clone", ["Clone"]); ("Debug", ["Debug"])])].
+  Proof. reflexivity. Qed.
+End BuildersExamples.
+
+Theorem extend_exact_prefix (st : bstate) (l : list (spath * spath)) :
+  apply_op st (OpSubExtend l) =
+  (mk_bstate (b_dreg st)
+             (fold_left (fun sb '(s, t) => subs_insert sb (idents s) (spec_value s t))
+                        (ext_elems l) (b_subs st)),
+   spec_outcome (OpSubExtend l))
+  /\ exists rest, l = ext_elems l ++ rest /\
+       Forall (fun p => classify (fst p) (snd p) = None) (ext_elems l) /\
+       (forallb (fun p => absolute (snd p)) l = true ->
+        match rest with [] => True | p :: _ => classify (fst p) (snd p) <> None end).
+Proof. split; [apply extend_exact|apply ext_elems_prefix]. Qed.
